@@ -118,7 +118,7 @@ Next == /\ edits < MaxEdits /\ edits' = edits + 1
 \* emission of cases for replay: the buffer, its line structure and the expected response class
 \* for every relevant position
 RECURSIVE SumSeq(_)
-SumSeq(s) == IF s = <<>> THEN 0 ELSE s[1] + 7 * SumSeq(Tail(s))
+SumSeq(s) == IF s = <<>> THEN 0 ELSE (s[1] + 7 * SumSeq(Tail(s))) % 1000003
 Emit == (SumSeq(text) % EmitMod = EmitRem) =>
           LET L == Lines(text) IN
           PrintT(<<"CASE", ToJson([text |-> text, lines |-> L,
